@@ -478,6 +478,10 @@ def check_source(trace, stats=None, cuts=None, corruptions=None):
         m = next((i for i, e in enumerate(E) if e is not None and line < e), None)
         if m is None:
             return []
+        if f["kind"] == "int_nudge" and line < len(lines) and b"Number of geometries" in lines[line]:
+            # the length of the list of optimisation / IRC paths: a file that announces fewer paths *is* a file with fewer
+            # paths (like a trajectory cut at a frame boundary); the per-point block sizes are the subject
+            return []
         rec = c07.run_load(name, fmt, "load_many", data, ("exhaust", 0), None, budget)
         n_eval += 1
         vs = []
